@@ -518,6 +518,8 @@ class ConfigParser(object):
     basic_type_tokens = [tokenize.NAME, tokenize.NUMBER, tokenize.STRING]
     continue_parsing = self._current_token.type in basic_type_tokens
     if not continue_parsing:
+      if token_value:  # A leading '-' was consumed, a literal must follow.
+        self._raise_syntax_error("Expected a literal value after '-'.")
       return False, None
 
     while continue_parsing:
